@@ -217,7 +217,7 @@ func runC14(c *Ctx) {
 		cut := ir.Union(gEnd.cut(), single.cut())
 		var bad []string
 		for _, s0 := range c.successEdges(errNil("verifyHeadersAtTargetHeight(overlapStart)", startV, 0)) {
-			ir.Walk(s0.b, s0.idx, cut, func(in ssa.Instruction) bool {
+			ir.WalkCtx(s0.b, s0.idx, s0.pred, cut, func(in ssa.Instruction) bool {
 				if r, ok := in.(*ssa.Return); ok && ir.IsNil(ir.RetVal(r, 0)) {
 					bad = append(bad, "return nil at "+c.at(in)+" reachable with a multi-height overlap whose end was never compared with the stores")
 				}
@@ -359,7 +359,7 @@ func runC14(c *Ctx) {
 			cut := g.cut()
 			for _, s := range starts {
 				sites = append(sites, s.desc)
-				ir.Walk(s.b, s.idx, cut, func(in ssa.Instruction) bool {
+				ir.WalkCtx(s.b, s.idx, s.pred, cut, func(in ssa.Instruction) bool {
 					if isYield(in) {
 						return false
 					}
@@ -437,7 +437,7 @@ func (c *Ctx) consistentBatches() {
 	gm := equalIs("appendMode vs appendBlockAndFilter", modeCmps, true)
 	var badW []string
 	for _, st := range c.successEdges(gm) {
-		ir.Walk(st.b, st.idx, nil, func(in ssa.Instruction) bool {
+		ir.WalkCtx(st.b, st.idx, st.pred, nil, func(in ssa.Instruction) bool {
 			if callTo(setLast)(in) {
 				return false
 			}
